@@ -104,7 +104,7 @@ fn c11_k_jd_next() {
   kani::cover!(n == -1, "jd_next reachable");
 }
 
-// ---- C12: any Julian date inside one day -> valid instant within half a second (experiment: thorough tier) ------------
+// ---- C12: any Julian date inside one day -> valid instant within half a second (thorough tier) ------------
 // The date part depends only on the integer day (contract / K3); this harness fixes the day number symbolically in a
 // slice and lets the FRACTION range over every f64 in [0, 1): the clock part and the rounding carry are then checked for
 // all fractions: fields in range, and |seconds-of-day + 86400*(day carried) - fraction*86400| <= 0.5 (+ f64 resolution).
@@ -126,4 +126,4 @@ fn c12_frac_body(nlo: isize, nhi: isize) {
   assert!(got - want <= 0.5001 && want - got <= 0.5001, "within half a second of the Julian date");
   kani::cover!(dn == n + 1, "fraction reachable (carry into the next day)");
 }
-//@SLICES prefix=c12_k_jd_fraction call=c12_frac_body lo=1721424 hi=5373484 n=128
+//@SLICES prefix=c12_k_jd_fraction call=c12_frac_body lo=1721424 hi=5373484 n=16
